@@ -73,6 +73,7 @@ def item(draw) -> Dict[str, Any]:
 
 def strategy(tier: str):
     return st.fixed_dictionaries({'socks': st.sampled_from(['v4', 'v4', 'dual']), 'seed': st.integers(0, 10**6),
+                                  'canary_junk': st.sampled_from([None, 200, 500, 900]),
                                   'stream': st.lists(item(), min_size=1, max_size=40 if tier == 'thorough' else 25)})
 
 
@@ -223,12 +224,33 @@ class Exec:
         ep = v.endpoints[0]
         csrc4 = ('10.0.0.200', 45000)
         src = csrc4 if ep.sock.family != 10 else ('::ffff:10.0.0.200', 45000, 0, 2)
+        # the canary queries are byte-identical to plain queries the stream may have carried earlier (a poller repeats itself), and
+        # may be preceded by one more unparsable datagram a few hundred ms earlier: neither may make the instance ignore them
+        junk_ms = case.get('canary_junk')
+
+        async def junk_then_wait() -> None:
+            if junk_ms:
+                ep.proto.datagram_received(b'\x12\x34' + b'\xff' * 20, ('10.0.0.203', 5353) if ep.sock.family != 10 else ('::ffff:10.0.0.203', 5353, 0, 2))
+                await asyncio.sleep(junk_ms / 1000.0)
+
+        await junk_then_wait()
         n0 = len(w.net.trace)
-        ep.proto.datagram_received(rp.build_query([(OWN['name'], 33, False)], [], qid=0x7777), src)
+        ep.proto.datagram_received(rp.build_query([(OWN['name'], 33, False)], [], qid=7), src)
         self.canary['legacy'] = [e for e in w.net.trace[n0:] if e['port'] == 45000]
-        n1 = len(w.net.trace)
+        # the same poller asks again, byte for byte, more than a second later (possibly right after another unparsable datagram)
+        # (twice: the first answer may also be multicast and heard back, which makes the instance's own answer the last datagram seen)
+        self.canary['legacy_again'] = []
+        for _ in range(2):
+            await asyncio.sleep(1.2)
+            await junk_then_wait()
+            n0b = len(w.net.trace)
+            ep.proto.datagram_received(rp.build_query([(OWN['name'], 33, False)], [], qid=7), src)
+            self.canary['legacy_again'].append([e for e in w.net.trace[n0b:] if e['port'] == 45000])
         src2 = ('10.0.0.201', 5353) if ep.sock.family != 10 else ('::ffff:10.0.0.201', 5353, 0, 2)
-        ep.proto.datagram_received(rp.build_query([(TYPE_OWN, 12, False)], [], qid=0), src2)
+        await asyncio.sleep(1.2)
+        await junk_then_wait()
+        n1 = len(w.net.trace)
+        ep.proto.datagram_received(rp.build_query([(TYPE_OWN, 12, False)], [], qid=7), src2)
         await asyncio.sleep(1.3)
         self.canary['qm'] = [e for e in w.net.trace[n1:] if e['host'] == 'V' and e['dst'] in (sim.MDNS4, sim.MDNS6)]
         n_ev = len(lst.events)
@@ -250,6 +272,30 @@ class Exec:
         await asyncio.sleep(0.01)
         live = lst.live().get(TYPE_B, set())
         self.canary['reannounced_missing'] = [f'peer{k}.{TYPE_B}' for k in used if f'peer{k}.{TYPE_B}' not in live]
+        # a peer that announces itself twice with the very same bytes, 1.7-2.1 s apart (possibly with an unparsable datagram in
+        # between): the second copy is not a link-layer duplicate and has to refresh the cache - its 2 s SRV record must still be
+        # usable 3 s after the first copy
+        cname = 'canary2.' + TYPE_B
+        ann2 = wire.encode({'id': 0, 'flags': 0x8400, 'qd': [], 'an': [
+            rp.wire_rr_of_ident(('PTR', TYPE_B, cname), 4500),
+            rp.wire_rr_of_ident(('SRV', cname, 0, 0, 99, 'canaryhost.local.'), 2, flush=True),
+            rp.wire_rr_of_ident(('TXT', cname, '00'), 4500, flush=True),
+            rp.wire_rr_of_ident(('A', 'canaryhost.local.', '0a090909'), 120, flush=True)], 'ns': [], 'ar': []})
+        await asyncio.sleep(1.5)
+        t_first = w.clock.t
+        ep.proto.datagram_received(ann2, src3)
+        await asyncio.sleep(1.2)
+        if junk_ms:
+            await junk_then_wait()
+        else:
+            await asyncio.sleep(0.5)
+        ep.proto.datagram_received(ann2, src3)
+        await asyncio.sleep(max(0.0, t_first + 3.0 - w.clock.t))
+        n2 = len(w.net.trace)
+        try:
+            self.canary['refreshed_lookup'] = await AsyncServiceInfo(TYPE_B, cname).async_request(v.zc, 300)
+        except BaseException as e:  # noqa
+            self.canary['refreshed_lookup'] = repr(e)
         await asyncio.sleep(11.0)
         # everything armed by the stream has fired by now (refresh schedules run at 75-95 % of up to 4500 s)
         await asyncio.sleep(4600.0)
@@ -272,11 +318,17 @@ def check(case: Dict[str, Any]) -> Dict[str, Any]:
     legacy_ok = False
     for e in ex.canary['legacy']:
         m = sim.decode_trace_entry(e)
-        if m and m['id'] == 0x7777 and any(r['type'] == 33 for r in m['an']):
+        if m and m['id'] == 7 and any(r['type'] == 33 for r in m['an']):
             legacy_ok = True
     if not legacy_ok:
         raise Violation('after the stream a well-formed legacy query is no longer answered by unicast', {'replies': len(ex.canary['legacy'])},
                         tag='canary-legacy')
+    again_ok = all(any((m := sim.decode_trace_entry(e)) and m['id'] == 7 and any(r['type'] == 33 for r in m['an']) for e in es)
+                   for es in ex.canary['legacy_again'])
+    if not again_ok:
+        raise Violation('the same well-formed legacy query, repeated more than a second later, is no longer answered',
+                        {'replies': [len(es) for es in ex.canary['legacy_again']], 'unparsable_datagram_ms_before': case.get('canary_junk')},
+                        tag='canary-legacy-repeat')
     qm_ok = False
     for e in ex.canary['qm']:
         m = sim.decode_trace_entry(e)
@@ -287,6 +339,11 @@ def check(case: Dict[str, Any]) -> Dict[str, Any]:
                         {'multicasts': len(ex.canary['qm'])}, tag='canary-qm')
     if not ex.canary['added']:
         raise Violation('after the stream an announcement no longer reaches the browser', None, tag='canary-browser')
+    if ex.canary.get('refreshed_lookup') is not True:
+        raise Violation('a peer announced itself twice with identical bytes about two seconds apart; the second copy did not refresh the '
+                        'cache (a lookup that needs the refreshed 2 s SRV record fails)',
+                        {'lookup': ex.canary.get('refreshed_lookup'), 'unparsable_datagram_ms_before_second_copy': case.get('canary_junk')},
+                        tag='canary-repeat-not-processed')
     if ex.canary.get('reannounced_missing'):
         raise Violation('an instance the stream had mentioned was announced again (well-formed, alone) after the stream and the browser '
                         'does not report it', {'instances': ex.canary['reannounced_missing'],
